@@ -8,7 +8,9 @@ import (
 	"fmt"
 	"io"
 	"os"
+	"os/exec"
 	"os/signal"
+	"path/filepath"
 	"sort"
 	"strconv"
 	"strings"
@@ -84,6 +86,10 @@ func PureHelper(args []string, stdin string, cwd string, getenv func(string) (st
 			return HelperResult{Stderr: "vhelper emit: bad arguments\n", Exit: 2, Known: true}
 		}
 		return r
+	case "spawn":
+		// spawn --pid=FILE MS: starts a grandchild that keeps the inherited output pipes open for MS milliseconds and
+		// exits at once itself; no output, status 0
+		return HelperResult{Known: true}
 	case "cat":
 		return HelperResult{Stdout: stdin, Known: true}
 	case "printenv":
@@ -144,6 +150,21 @@ func HelperMain() {
 				}
 			}
 			os.Exit(0)
+		case "spawn":
+			if exe, err := os.Executable(); err == nil && len(args) >= 2 {
+				// the same binary under the same command name, with our stdout and stderr
+				c := exec.Command(filepath.Join(filepath.Dir(os.Args[0]), filepath.Base(os.Args[0])), append([]string{"sleepms"}, args[1:]...)...)
+				if !filepath.IsAbs(os.Args[0]) {
+					c = exec.Command(exe, append([]string{"sleepms"}, args[1:]...)...)
+					c.Args[0] = os.Args[0]
+				}
+				c.Stdout, c.Stderr = os.Stdout, os.Stderr
+				if err := c.Start(); err != nil {
+					fmt.Fprintln(os.Stderr, "vhelper spawn:", err)
+					os.Exit(3)
+				}
+			}
+			os.Exit(0)
 		case "sleepms":
 			n, _ := strconv.Atoi(args[len(args)-1])
 			for _, a := range args[1 : len(args)-1] {
@@ -154,7 +175,7 @@ func HelperMain() {
 			time.Sleep(time.Duration(n) * time.Millisecond)
 			os.Exit(0)
 		case "block":
-			// block [--ignore-quit] [--exit-on-int] [--die-after=MS] [--ready=FILE] [--pid=FILE] [-o TEXT]
+			// block [--ignore-quit] [--exit-on-int] [--exit0-on-quit] [--die-after=MS] [--ready=FILE] [--pid=FILE] [-o TEXT]
 			exitOnInt := false
 			ready := ""
 			dieAfter := time.Duration(0) // give up (status 7) after this long: a bound for cases where a signal can get lost
@@ -165,6 +186,14 @@ func HelperMain() {
 					signal.Ignore(syscall.SIGQUIT)
 				case a == "--exit-on-int":
 					exitOnInt = true
+				case a == "--exit0-on-quit":
+					// a program that takes the interrupt as a request to shut down in good order: status 0
+					qc := make(chan os.Signal, 1)
+					signal.Notify(qc, syscall.SIGQUIT)
+					go func() {
+						<-qc
+						os.Exit(0)
+					}()
 				case strings.HasPrefix(a, "--die-after="):
 					ms, _ := strconv.Atoi(strings.TrimPrefix(a, "--die-after="))
 					dieAfter = time.Duration(ms) * time.Millisecond
